@@ -42,7 +42,33 @@ T_Validate ==
         /\ e.altered => e.res.buf # signed
   /\ UNCHANGED signed
 
-TNext == T_Sign \/ T_Validate
+\* a real key of one of the backend's algorithms ("direct" or through the
+\* BIND private-key format) signs an RRset: the key pair is the public key it
+\* was made from and says so, the RRSIG names that key (algorithm, RFC 4034
+\* App. B tag of the real key octets) and has the RFC fields, the signature
+\* has the algorithm's length and verifies under that key only - not under
+\* another key, not when key and RRSIG are relabelled as a sibling algorithm
+T_KeySign ==
+  /\ IsEv("keysign")
+  /\ LET e == Rec[l]
+         f == SignerFields(e.key, e.keyOwner, e.rrs, e.inc, e.exp)
+         d == SignedData(f, e.rrs)
+         s == SignTerm(e.key, d)
+         sib == SiblingAlg(e.key.alg)
+     IN /\ e.key = e.made_from
+        /\ e.key.alg \in SignAlgs /\ KeyWellFormed(e.key)
+        /\ e.algs.pair = e.key.alg /\ e.algs.secret = e.key.alg /\ e.algs.sig = e.key.alg
+        /\ NoDuplicates(e.rrs)
+        /\ f = e.res.sig
+        /\ d = e.res.buf /\ ValidatorOctets(f, e.rrs) = d
+        /\ e.res.siglen = SigLen(e.key)
+        /\ e.res.keysize = KeySize(e.key)
+        /\ e.res.verify = Verify(s, e.key, d)
+        /\ e.res.verify_other = Verify(s, e.other, d)
+        /\ e.res.verify_sibling = Verify(s, [e.key EXCEPT !.alg = sib], SignedData([f EXCEPT !.alg = sib], e.rrs))
+  /\ UNCHANGED signed
+
+TNext == T_Sign \/ T_Validate \/ T_KeySign
 TSpec == TInit /\ [][TNext]_tvars
 
 Accepted ==
